@@ -359,6 +359,11 @@ def build(tier, seed):
             for sd in (SEEDS[:1] if quick else SEEDS):
                 for first in ops:
                     cases.append({'mode': 'exact', 'cls': cls, 'seed': sd, 'first': first, 'depth': 3, 'triples_only': quick})
+            if not quick:
+                # depth 4, restricted to the two patterns in which a second change can hide or expose what the first left behind:
+                #   (read | custom) -> change -> change -> read      and      change -> (read | custom) -> change -> read
+                for first in ops:
+                    cases.append({'mode': 'exact', 'cls': cls, 'seed': SEEDS[0], 'first': first, 'depth': 4, 'pattern4': True})
     finally:
         pool.terminate()
         pool.join()
@@ -467,6 +472,13 @@ def run_case(case):
         depth = case['depth']
 
         def allow(hist, name):
+            if case.get('pattern4'):
+                rd = lambda nme: kind[nme][0] in ('read', 'custom')   # noqa: E731
+                seq = hist + [name]
+                pats = ((True, False, False, True), (False, True, False, True))
+                if len(seq) == 4 and kind[name][0] != 'read':
+                    return False
+                return any(all(rd(seq[i]) == pat[i] for i in range(len(seq))) for pat in pats)
             if len(hist) < 2 or not case.get('triples_only'):
                 return True
             return kind[hist[0]][0] in ('read', 'custom') and kind[hist[1]][0] not in ('read', 'custom') and kind[name][0] == 'read'
@@ -474,7 +486,7 @@ def run_case(case):
         r.states += out['states']
         r.transitions += out['transitions']
         r.evals += out['transitions']
-        r.cls('exact-depth-%d' % depth)
+        r.cls('exact-depth-%d%s' % (depth, '-patterns' if case.get('pattern4') else ''))
         viol = out['violations']
     for hist, p in viol:
         r.fail(p[0], dict(base, mode=case['mode'], history=hist, read=p[1]), p[2] + ' after ' + ' ; '.join(hist))
